@@ -53,6 +53,10 @@ def check(s):
         hits = scan_function(P, m, qual, fn, allow_self_assign=fn.name in ("__init__", "_init_common"))
         h1 = [h for h in hits if h.kind in kinds1]
         h4 = [h for h in hits if h.kind in kinds4]
+        from ..effects import cell_var_from_loop as _cv, mutable_default_mutation as _md
+        h_shared = _md(fn) + _cv(fn)
+        s.ob("C11.1", qual.replace("lerax.", ""), not h_shared, "no state shared between calls through a mutable default argument; no function value reading a loop variable late", P.loc(m, fn),
+             key="shared-python-state", detail="; ".join(h_shared[:3]), necessary_for="training is a function of its explicit inputs")
         s.ob("C11.1", qual.replace("lerax.", ""), not h1, "no nondeterministic or stateful callee, no constant key, no global state", P.loc(m, fn), key="ambient-effect",
              detail="; ".join(str(h) for h in h1), necessary_for="training is a function of (environment, initial policy, hyper-parameters, key)")
         s.ob("C11.4", qual.replace("lerax.", ""), not h4, "no attribute / item assignment, setattr or __dict__ access on an argument", P.loc(m, fn), key="argument-mutation",
